@@ -182,6 +182,52 @@ def check_case(case):
                 pass
             except Exception as e:
                 res.v(("C06.unknown-phase-exc", type(e).__name__), str(e))
+    if case.get("negfile"):
+        # a saved file whose per-phase load values were written with a negative sign (hand-edited / older tool): the loaded system takes magnitudes,
+        # exactly like set_comp_phases() and the constructors do
+        import os, json as _json
+        from ..common import workdir
+        from sysloss.system import System
+        pth = os.path.join(workdir("c06"), "neg.json")
+        s.save(pth)
+        doc = _json.load(open(pth))
+        for k_, v_ in doc["system"]["phase_conf"].items():
+            if isinstance(v_, dict):
+                doc["system"]["phase_conf"][k_] = {p_: -abs(x_) for p_, x_ in v_.items()}
+        _json.dump(doc, open(pth, "w"))
+        try:
+            s3, _ = quiet_call(System.from_file, pth)
+            o3 = observe(quiet_call(s3.solve, ta=-15.0)[0])
+            for ph in phases:
+                for n in d:
+                    for col in CMPCOLS:
+                        if not close(g(obs[(ph, n)], col), g(o3[(ph, n)], col), 2e-4, 2e-6):
+                            res.v(("C06.file-with-negative-phase-values", d[n]["k"], col), "phase %s %s %s: %r in memory, %r loaded from the file with negative signs" % (ph, n, col, g(obs[(ph, n)], col), g(o3[(ph, n)], col)))
+                            break
+        except Exception as e:
+            res.v(("C06.file-with-negative-phase-values-raises", type(e).__name__), str(e)[:200])
+    if case.get("budgets"):
+        # a small iteration budget: RuntimeError, or a table in which EVERY phase is the converged one (not only the last phase solved)
+        for mi in (1, 2, 3, 5, 8):
+            try:
+                dfm, _ = quiet_call(s.solve, ta=-15.0, maxiter=mi)
+            except RuntimeError:
+                continue
+            except ValueError:
+                continue
+            om = observe(dfm)
+            bad = False
+            for ph in phases:
+                for n in d:
+                    for col in CMPCOLS:
+                        if not close(g(obs[(ph, n)], col), g(om[(ph, n)], col), 2e-4, 2e-6):
+                            res.v(("C06.unconverged-phase-returned", "maxiter"), "maxiter=%d phase %s %s %s: %r, converged %r" % (mi, ph, n, col, g(om[(ph, n)], col), g(obs[(ph, n)], col)))
+                            bad = True
+                            break
+                    if bad:
+                        break
+                if bad:
+                    break
     res.nontrivial = 1 if (sleepers and sum(a is not None for a in case["assign"]) >= 2) else 0
     res.classes.add("configured=%d" % min(3, sum(a is not None for a in case["assign"])))
     return res
@@ -208,6 +254,10 @@ def gen_cases(tier):
                     opts[0] = [None, [list(phases)[0]]]  # larger trees: the source is either unconfigured or on in the first phase only
                 for assign in itertools.product(*opts):
                     yield dict(f=f, pal=pal, srs=0.37, assign=list(assign), ph3=ph3)
+                    if not ph3 and n == 1 and any(isinstance(a, dict) for a in assign):
+                        yield dict(f=f, pal=pal, srs=0.37, assign=list(assign), ph3=ph3, negfile=True)
+                    if not ph3 and n >= 2 and len(f) == 1 and assign[0] is not None:   # chains with a phase-configured source
+                        yield dict(f=f, pal=pal, srs=0.37, assign=list(assign), ph3=ph3, budgets=True)
                     if not ph3 and n == 1:
                         yield dict(f=f, pal=pal, srs=0.37, assign=list(assign), ph3=ph3, bounce="rename")
                         yield dict(f=f, pal=pal, srs=0.37, assign=list(assign), ph3=ph3, bounce="clear")
